@@ -203,8 +203,11 @@ class GlobalOptions(Contract):
             st.cur.dom = z3.Const(ctx.fresh("body_dom"), z3.ArraySort(OKey, z3.BoolSort()))
             st.cur.val = z3.Const(ctx.fresh("body_val"), z3.ArraySort(OKey, OVal))
             ctx.assume(st.cur.dom == st.K)
-            if ex.choice(2, "block exit") == 1:
-                raise RaiseSig("BlockException", node)
+            how = ex.choice(3, "block exit")
+            if how == 1:
+                raise RaiseSig("BlockException", node)            # an ordinary exception raised in the block
+            if how == 2:
+                raise RaiseSig("BlockBaseException", node)        # KeyboardInterrupt / SystemExit / GeneratorExit (closing a generator)
             return None
 
         def check(out):
@@ -234,9 +237,10 @@ class GlobalOptions(Contract):
             else:
                 ex.oblige("block.yields_copy_of_options", z3.BoolVal(False), "post")
             if out.kind == "raise":
-                ex.oblige("exit.exception_propagates", z3.BoolVal(out.exc == "BlockException"), "post")
-                ex.oblige("exit.restore[exception]", st.unchanged(ctx), "post",
-                          note="complete previous option set restored when the block exits by exception")
+                ex.oblige("exit.exception_propagates", z3.BoolVal(out.exc in ("BlockException", "BlockBaseException")), "post")
+                ex.oblige(f"exit.restore[{'exception' if out.exc == 'BlockException' else 'non-Exception exception'}]", st.unchanged(ctx), "post",
+                          note="complete previous option set restored when the block exits by exception (also KeyboardInterrupt, "
+                               "SystemExit, GeneratorExit)")
             else:
                 ex.oblige("exit.restore[normal]", st.unchanged(ctx), "post",
                           note="complete previous option set restored on normal exit")
